@@ -78,10 +78,24 @@ def sitefree(rng, n, enzs):
     raise RuntimeError("cannot draw site-free filler")
 
 
+# the vector layouts of the kits as published (and as the classes spell them at the pinned commit): the vectors of the workload are
+# instances of these, not of whatever the class says today; the dropout between the two inner sites may have any length, zero included
+VECTOR_LAYOUTS = {
+    "CIDAREntryVector": "GGTCTCN(NNNN)(NNGTCTTCN*GAAGACNN)(NNNN)NGAGACC",
+    "CIDARCassetteVector": "GAAGACNN(NNNN)(NGAGACCN*GGTCTCN)(NNNN)NNGTCTTC",
+    "CIDARDeviceVector": "GGTCTCN(NNNN)(NNGTCTTCN*GAAGACNN)(NNNN)NGAGACC",
+    "EcoFlexCassetteVector": "CGTCTCNNNNN(NNNN)(NGAGACCN*?GGTCTCN)(NNNN)NNNNNGAGACG",
+    "EcoFlexDeviceVector": "GGTCTCNNNNN(NNNN)(NGAGACGN*CGTCTCN)(NNNN)NNNNNGAGACC",
+    "MoCloEntryVector": "GGTCTCN(NNNN)(NNGTCTTCN*GAAGACNN)(NNNN)NGAGACC",
+    "MoCloCassetteVector": "GAAGACNNNNNN(NNNN)(NGAGACCN*GGTCTCN)(NNNN)NNNNNNGTCTTC",
+}
+
+
 def make_vector(rng, Vc, enzs, groups=None):
     free = lambda t: not any(nsites(t, e, False) for e in enzs)
+    layout = VECTOR_LAYOUTS[Vc.__name__]
     for _ in range(300):
-        sv = gen.instance(rng, Vc.structure(), run_max=25, groups=groups, run_filter=free) + sitefree(rng, rng.randint(2, 20), enzs)
+        sv = gen.instance(rng, layout, run_max=0 if rng.random() < 0.12 else 25, groups=groups, run_filter=free) + sitefree(rng, rng.randint(2, 20), enzs)
         if all(nsites(sv, e) == 2 for e in set(enzs)) or (len(set(enzs)) == 1 and nsites(sv, enzs[0]) == 2):
             return sv
     return None
@@ -279,14 +293,20 @@ def one_triple(ctx, name, Vc, Mc, Nc, rng):
         anchors = [a + d for st in (enz.site, rc(enz.site)) for a in occurrences(sv.upper(), st) for d in (0, 1, len(st) - 1, len(st), -1)]
         if anchors:
             x = anchors[(x // 2) % len(anchors)] % len(sv)
-    vent = Vc(rec(rot_left(sv, x), "vec"))
+    # own stream: one of the plasmids comes from a tool that writes lower case (the vector, or every insert)
+    rcase = gen.rng_for("c11-case", name, sv[:24], len(sv)).random()
+    vcase = (lambda t: t.lower()) if rcase < 0.12 else (lambda t: t)
+    mcase = (lambda t: t.lower()) if 0.12 <= rcase < 0.24 else (lambda t: t)
+    if rcase < 0.24:
+        ctx.count("c11_mixed_spelling_assemblies")
+    vent = Vc(rec(vcase(rot_left(sv, x)), "vec"))
     try:
         if not vent.is_valid():
             ctx.violation("vector-instance-rejected:" + name, "%s rejects an instance of its own structure with exactly two sites of each enzyme" % Vc.__name__, **wit)
             return
         order = list(range(len(mods)))
         rng.shuffle(order)
-        prod = assemble(vent, [Mc(rec(rot_left(mods[i], rng.randrange(len(mods[i]))), "m%d" % i)) for i in order])
+        prod = assemble(vent, [Mc(rec(mcase(rot_left(mods[i], rng.randrange(len(mods[i])))), "m%d" % i)) for i in order])
     except Exception as e:
         ctx.violation("level-assembly-raises:%s:%s" % (name, type(e).__name__), "%s: complete chain of %d insert(s) raised %s: %s" % (
             name, len(mods), type(e).__name__, str(e)[:160]), **wit)
